@@ -1147,12 +1147,23 @@ impl<'a> PublicRangeFinder<'a> {
             }
           }
 
-          let child_ids = symbol
+          let mut child_ids = symbol
             .exports()
             .values()
             .copied()
             .chain(symbol.members().iter().copied())
             .collect::<Vec<_>>();
+          // static class members whose key cannot name an export (computed
+          // keys, static index signatures) are children of the class only
+          for child_id in symbol.child_ids() {
+            if !child_ids.contains(&child_id)
+              && module_info
+                .symbol(child_id)
+                .is_some_and(|child| child.is_member())
+            {
+              child_ids.push(child_id);
+            }
+          }
           // Queue the children without marking them done. A class member may
           // also be reached later through an explicit reference (e.g. a public
           // member whose type is `typeof MyClass.prototype.privateMember`); that
